@@ -87,6 +87,16 @@ DiffLaws(mesh, E, x, y) ==
        /\ SpecNodeDiff(E, nx, 1) = nd                                              \* |.| : sign of the field is irrelevant
        /\ SpecFaceDiff(mesh, E, sy, 1) = fd                                        \* shift invariance
        /\ \A k \in 1..Len(E) : (nd[k][1] = 0) <=> (x[E[k][1] + 1] = x[E[k][2] + 1])
+       \* homogeneity: scaling the field scales the difference (no absolute threshold anywhere)
+       /\ \A c \in { 2, 1024 } :
+            /\ \A k \in 1..Len(E) : SpecNodeDiff(E, [ n \in 1..Len(x) |-> c * x[n] ], 1)[k][1] = c * nd[k][1]
+            /\ \A k \in 1..Len(E) : SpecFaceDiff(mesh, E, [ f \in 1..Len(y) |-> c * y[f] ], 1)[k][1] = c * fd[k][1]
+
+(* ---- magnitudes --------------------------------------------------------------------------- *)
+\* Data rows may be scaled by a power of two 2^e (exact in binary floating point), a different e per leading index:
+\* the value is v * 2^e / D and, by homogeneity, difference and gradient are the unscaled ones times 2^e.  The
+\* exponents the harness may use (about 1e-12, 1e-9, 1e-6, 1, 1e6, 1e12):
+ScaleExps == { -40, -30, -20, 0, 20, 40 }
 
 (* ---- distances ---------------------------------------------------------------------- *)
 \* node-node geodesic of edge row on integer direction nodes: atan2(sqrt(num), dot)
